@@ -222,6 +222,14 @@ func c17Clock(c *Ctx, cs *Case) {
 		return
 	}
 	lines := strings.Split(strings.TrimSuffix(o.Stdout, "\n"), "\n")
+	if o.Exit == 0 && len(lines) == 8 {
+		// an ordinary number has one text: what + splices on either side is what print shows
+		if lines[3] != "true" || lines[4] != lines[0] || lines[5] != lines[0] || lines[6] != "0.5" || lines[7] != "<0>" {
+			c.Violate(Violation{Why: "the value of ক্লক() does not behave like an ordinary number (print / string + number / number + string disagree)", Observed: o.Stdout, Signature: "clock-text"})
+			return
+		}
+		lines = lines[:3]
+	}
 	if o.Exit != 0 || len(lines) != 3 {
 		c.Violate(Violation{Why: "clock program did not print three lines and exit 0", Observed: describeObs(o), Signature: "clock-shape"})
 		return
@@ -487,6 +495,15 @@ func c17Run(c *Ctx) {
 			c17Judge(c, &Case{Gen: "min-max-long-lists", Src: src, X: map[string]string{"fn": "minmax", "nargs": fmt.Sprint(n)}})
 		}
 	}
+	// 3e3. any expression may be an argument (an assignment included); ঘাত of a power equals the ** chain
+	for _, src := range []string{
+		Lines(Var("k", "0"), Print(BI("sqrt", "k = 16")), Print("k"), Var("big", "0"), Print(BI("max", "big = 3", "2")), Print(BI("abs", "k = k - 20")), Print(BI("pow", "k = 2", "big = 10")), Print("[k, big]")),
+		Lines(Print(BI("pow", BI("pow", "2", "3"), "2")+" == 2 ** 3 ** 2"), Print("2 ** 3 ** 2"), Print(BI("sqrt", "16")+" ** 2 ** 0.5"), Var("q", "2"), Print("q ** 2 ** 3 ** -1"), Print(BI("pow", BI("pow", BI("pow", "q", "2"), "3"), "-1"))),
+	} {
+		if c.Mine() {
+			c17Judge(c, &Case{Gen: "builtin-arity-kinds", Src: src, X: map[string]string{"fn": "argument-forms", "nargs": "1"}})
+		}
+	}
 	// 3e2. a variable declared without a value holds nil, also when it follows an initialised one in a list; a call followed by a comment that ends the text
 	for _, src := range []string{
 		Lines(K["var"]+" root = "+BI("sqrt", "16")+", res;", Print(`"before"`), Print(BI("abs", "res")), Print(`"AFTER"`)), Lines(K["var"]+" base = 2, ex;", Print(BI("pow", "base", "ex"))), Lines(K["var"]+" best = 9, other, third;", Print(BI("max", "best", "9")), Print(BI("min", "other", "1"))),
@@ -509,7 +526,7 @@ func c17Run(c *Ctx) {
 	// 4. clock: causal bracket around the child process
 	for k := 0; k < 3; k++ {
 		if c.Mine() {
-			c17Judge(c, &Case{Gen: "clock", Src: Lines(Var("t", BI("clock")), Print("t"), Print("t > 1600000000"), Print(BI("clock")+" >= t"))})
+			c17Judge(c, &Case{Gen: "clock", Src: Lines(Var("t", BI("clock")), Print("t"), Print("t > 1600000000"), Print(BI("clock")+" >= t"), Print(`(t + "") == ("" + t)`), Print(`t + ""`), Print(`"" + t`), Print(`t - t + 0.5`), Print(`"<" + (t - t) + ">"`))})
 		}
 	}
 }
